@@ -78,9 +78,14 @@ public:
 	
 	ScopedRemover & operator = (ScopedRemover && other) noexcept
 	{
-		dispatcher = std::move(other.dispatcher);
-		itemList = std::move(other.itemList);
-		other.reset();
+		if(this != &other) {
+			// Release the listeners this remover is still responsible for,
+			// otherwise they are left attached with no remover owning them.
+			reset();
+			dispatcher = std::move(other.dispatcher);
+			itemList = std::move(other.itemList);
+			other.reset();
+		}
 		return *this;
 	}
 	
@@ -219,9 +224,14 @@ public:
 
 	ScopedRemover & operator = (ScopedRemover && other) noexcept
 	{
-		callbackList = std::move(other.callbackList);
-		itemList = std::move(other.itemList);
-		other.reset();
+		if(this != &other) {
+			// Release the listeners this remover is still responsible for,
+			// otherwise they are left attached with no remover owning them.
+			reset();
+			callbackList = std::move(other.callbackList);
+			itemList = std::move(other.itemList);
+			other.reset();
+		}
 		return *this;
 	}
 
